@@ -1,7 +1,7 @@
 //! C04, C08, C09, C11, C12, C14 — evaluator- and context-level properties.
 use super::*;
 use crate::codec::*;
-use crate::gen::*;
+use crate::gen::Rng;
 use crate::runner::ask_driver;
 use evalexpr::Value;
 
@@ -62,6 +62,27 @@ pub fn random_program(rng: &mut Rng, depth: usize) -> String {
         4 => format!("d = ({})", random_program(rng, depth - 1)),
         5 => format!("({}) && ({})", random_program(rng, depth - 1), random_program(rng, depth - 1)),
         _ => format!("-({})", random_program(rng, depth - 1)),
+    }
+}
+
+/// programs that (mostly) evaluate successfully: every value type occurs
+pub fn pure_program(rng: &mut Rng, depth: usize) -> String {
+    const ATOMS: [&str; 16] = [
+        "a", "1", "2.5", "f(3)", "g(a)", "math::sqrt(16)", "len(\"äb\")", "a * 2", "\"s\"", "true", "()", "(1, 2)", "typeof(a)", "min(a, 2.5)",
+        "str::from(a)", "a == 1",
+    ];
+    if depth == 0 || rng.chance(1, 3) {
+        return rng.pick(&ATOMS).to_string();
+    }
+    match rng.below(8) {
+        0 => format!("({}) + ({})", pure_program(rng, 0), pure_program(rng, 0)),
+        1 => format!("({}, {})", pure_program(rng, depth - 1), pure_program(rng, depth - 1)),
+        2 => format!("f({})", pure_program(rng, depth - 1)),
+        3 => format!("({}) == ({})", pure_program(rng, depth - 1), pure_program(rng, depth - 1)),
+        4 => format!("{}; {}", pure_program(rng, depth - 1), pure_program(rng, depth - 1)),
+        5 => format!("typeof({})", pure_program(rng, depth - 1)),
+        6 => format!("b = ({}); b", pure_program(rng, depth - 1)),
+        _ => format!("if(true, {}, {})", pure_program(rng, depth - 1), pure_program(rng, depth - 1)),
     }
 }
 
@@ -262,8 +283,8 @@ pub fn interesting_sources(rng: &mut Rng, n: usize) -> Vec<String> {
     .into_iter()
     .map(String::from)
     .collect();
-    for _ in 0..n {
-        v.push(random_program(rng, 3));
+    for i in 0..n {
+        v.push(if i % 2 == 0 { random_program(rng, 3) } else { pure_program(rng, 3) });
     }
     v
 }
